@@ -12,16 +12,16 @@ CHECKS = {
    text="All arrival histories with at most D (1..2, thorough 3..4) deviations (duplicates, gaps, old blocks, premature short blocks, strays, undecodable datagrams, timeouts) at every position, and all placements of up to F faults with a reference sender; the file on disk is observed inside Socket::send at the instant of each ACK. Write errors (RLIMIT_FSIZE) at every block: no block that could not be stored is acknowledged.",
    note="Trusted: SimSocket seam, RFC 1350 reference receiver used as oracle, file snapshots (len+hash).", design="§3, §6 C02"),
  "C03": dict(engine="E2 loopback", level="model_checking", technique="exhaustive enumeration of filenames over a path-token alphabet up to a length bound against the real Server, with tree snapshots and a lexical reference resolver",
-   text="All names of <=3 (thorough 4; 6 on the separator/dot sub-alphabet) tokens over an 18-token path alphabet, as RRQ and WRQ, in 4-5 configurations; each accepted request is carried to its end; served bytes identify their origin; the sandbox tree is snapshotted before and after.",
+   text="All names of <=3 (thorough 4; 6 on the separator/dot sub-alphabet) tokens over an 18-token path alphabet, as RRQ and WRQ, in 5-6 configurations (incl. the send directory reached by fallback); long names across NAME_MAX/PATH_MAX/the 512-octet request limit; downloads that fail (peer ERROR, peer silence); each accepted request is carried to its end; served bytes identify their origin; the sandbox tree is snapshotted before and after.",
    note="Trusted: reference resolver; Linux path semantics; no symlinks in the served tree.", design="§4, §6 C03"),
  "C04": dict(engine="E1 simnet + E2 loopback", level="fault_enumeration", technique="exhaustive enumeration of fault placements (drop/duplicate/delay/swap, both directions, both timer orders) over the closed system real Worker + reference peer",
    text="Every placement of up to F (2; thorough 3, and 4 on the shortest transfers) faults over all datagrams of a transfer, both roles, windowsize 1..4, four conformant peer variants, plus k<=5 consecutive losses at every position and all timeout/deliver words up to 12 answers; completion and byte identity are asserted whenever fewer than 6 faults occurred. Through the real Server (timeout=1 acknowledged): the same datagram lost 1, 2, 4 times in a row, both directions; the bundled tftpc behind a UDP relay that loses exactly one data-phase datagram, every early position.",
    note="Trusted: reference peers (RFC 1350/1123/7440), timer model (timers fire when the network is quiet; fair alternation).", design="§3.3, §6 C04"),
  "C05": dict(engine="E2 loopback (subprocess)", level="model_checking", technique="exhaustive enumeration of hostile datagram sequences up to length 2 over a structured alphabet, each against a fresh tftpd process, followed by a liveness probe",
-   text="All sequences of 1 (thorough 2, same/different source) datagrams over a ~190-datagram hostile alphabet (every option boundary value up to and beyond 2^64) x 4 configurations, each against a fresh process of the real binary; exit status and a canonical RRQ decide; after a completed transfer the canonical request is also issued from the endpoint that owned it.",
+   text="All sequences of 1 (thorough 2, same/different source) datagrams over a ~190-datagram hostile alphabet (every option boundary value up to and beyond 2^64) x 4 configurations (plus a server started inside its directory with -d .), each against a fresh process of the real binary; exit status and a canonical RRQ decide; after a completed transfer the canonical request is also issued from the endpoint that owned it.",
    note="Trusted: the alphabet covers the structurally relevant datagrams; arbitrary byte strings are C10's domain.", design="§6 C05"),
  "C06": dict(engine="E2 loopback", level="model_checking", technique="explicit-state breadth-first search over file-tree states with the real Server executing every transition, reference policy oracle, hidden-state differential guard",
-   text="BFS to depth 2 (thorough 4) over 36 request actions from an initial tree in all 32 configurations; every transition is judged by a reference policy function written from the statement.",
+   text="BFS to depth 2 (thorough 4) over 36 request actions from an initial tree in all 48 configurations (send directory explicit or by fallback), each with fresh sockets and with one reused client endpoint; every transition is judged by a reference policy function written from the statement.",
    note="Trusted: reference policy; state = file tree (server-internal state is guarded differentially by probing revisited states).", design="§4, §6 C06"),
  "C07": dict(engine="E1 simnet + E2 loopback", level="model_checking", technique="stateless deviation-bounded exploration of the real Worker (both roles) with termination monitors; silence, ERROR and k non-progress answers injected at every point; plus ERROR/silence histories against the real Server",
    text="All answer sequences with <= D deviations (2; thorough 3, 4 for windowsize <= 2) over the G1 grid, plus all-timeout from every point, ERROR at every point (handshake included) and k = 0..9 non-progress answers of one kind followed by silence, both roles; monitors T1-T5. Through the real Server (both port modes): peer ERROR after k steps ends the transfer at once; silence is answered by a retransmission after the default 5 s and by giving up after six 1-second timeouts (wall clock).",
@@ -33,7 +33,7 @@ CHECKS = {
    text="All ordered selections of the four options with boundary values (thorough: full cross product), x RRQ/WRQ x single/multi port x file sizes, each accepted request carried to its end with the acknowledged values; one wall-clock clause (retransmission interval) measured with asymmetric tolerance.",
    note="Trusted: reference negotiator; the interval clause is a measurement, not an enumeration.", design="§6 C09"),
  "C12": dict(engine="E2 loopback", level="model_checking", technique="exhaustive enumeration of all interleavings of K client scripts' datagrams (one datagram at a time) plus an intruder datagram at every position, against the real Server",
-   text="All interleavings of 2 scripts (10 pairs) and 3 short scripts, in both port modes, with an intruder datagram of 4 kinds to 2 targets at every position; per-client byte identity, source-port discipline, ERROR to the intruder.",
+   text="All interleavings of 2 scripts (10 pairs) and 3 short scripts, in both port modes, with an intruder datagram of 8 kinds to 2 targets (single-port: also from another loopback address with the victim's port number) at every position; a request that blocks on a named pipe at every position of another download; per-client byte identity, source-port discipline, ERROR to the intruder.",
    note="Assumes the driver's one-datagram-at-a-time regime; the server's internal thread schedule is the OS's (overlapped pairs in the thorough tier).", design="§6 C12"),
  "C13": dict(engine="E1 simnet + E2 loopback", level="fault_enumeration", technique="exhaustive enumeration of abort points x causes (ERROR, silence, RLIMIT_FSIZE write error) and of all interleavings of a stale and a fresh real Worker on one path",
    text="Every abort point of uploads of 1..5 blocks x cause x clean/keep x windowsize; all interleavings of two real Workers on one path; the same history through the real Server; single failing uploads through the real Server onto fresh and existing names.",
